@@ -130,6 +130,11 @@ def contains {κ ν : Type} [DecidableEq κ] (k : κ) (m : Map κ ν) : Bool := 
 
 def keys {κ ν : Type} (m : Map κ ν) : List κ := m.map (·.1)
 
+/-- In-place update of the value stored under `k` (`*map.get_mut(k).unwrap() = f(old)`). -/
+def modify {κ ν : Type} [DecidableEq κ] (k : κ) (f : ν → ν) : Map κ ν → Map κ ν
+  | [] => []
+  | (k', v') :: m => if k = k' then (k', f v') :: m else (k', v') :: modify k f m
+
 end Map
 
 /-- `str` order on names. -/
@@ -548,7 +553,7 @@ def resolveOne (tname : Name) (st : Map Name (List Name) × List Name) (next : N
   | none => .panic (.internal 805)
   | some rem =>
     let rem' := rem.filter (fun x => x != tname)
-    let st1 := Map.insert nameLt next rem' st.1
+    let st1 := Map.modify next (fun _ => rem') st.1
     if rem.contains tname && rem'.isEmpty then .ok (st1, st.2 ++ [next]) else .ok (st1, st.2)
 
 def resolveAll (tname : Name) :
@@ -715,6 +720,23 @@ def Schema.new (doc : Doc) : Outcome (Except (List SchemaErr) Schema) :=
                 .ok (.ok { queryType := q, directives := st.directives, scalars := st.scalars,
                            vertexTypes := st.vertexTypes, fieldOrigins := o })
             else .ok (.error errors)
+
+/-- Observers of an outcome (decidable, for witnesses and drivers). -/
+def Outcome.panicSite? {α : Type} : Outcome α → Option PanicSite
+  | .ok _ => none
+  | .panic s => some s
+
+/-- `Schema::new(doc)` returned `Ok(_)`. -/
+def accepts (doc : Doc) : Bool :=
+  match Schema.new doc with
+  | .ok (.ok _) => true
+  | _ => false
+
+/-- `Schema::new(doc)` returned `Err(errors)`. -/
+def rejectsWith (doc : Doc) : Option (List SchemaErr) :=
+  match Schema.new doc with
+  | .ok (.error es) => some es
+  | _ => none
 
 /-- `Schema::subtypes` (mod.rs:258–277): the named type and every type that lists it in
 `implements`, in name order; `none` when the type is not defined. -/
